@@ -51,6 +51,7 @@ type spec struct {
 	NilPage  []bool  `json:"nil_page"`
 	Requests []int   `json:"requests"`
 	Start    int     `json:"first_start_offset"`
+	Unit     string  `json:"timestamp_unit,omitempty"` // "" = hours; "ms", "ns": items published within the same second
 }
 
 var epoch = time.Date(2024, 1, 1, 0, 0, 0, 0, time.UTC)
@@ -63,7 +64,14 @@ func build(sp spec, calls *int64) ([]pub.Container, [][]*stub.Item) {
 		for j, t := range ts {
 			it := stub.New(fmt.Sprintf("s%d.%d", i, j))
 			if t != 0 {
-				it.Time = epoch.Add(time.Duration(t) * time.Hour)
+				unit := time.Hour
+				switch sp.Unit {
+				case "ms":
+					unit = time.Millisecond
+				case "ns":
+					unit = time.Nanosecond
+				}
+				it.Time = epoch.Add(time.Duration(t) * unit)
 			} else {
 				it.Fail = true
 			}
@@ -266,7 +274,7 @@ func TestVerifC11(t *testing.T) {
 			}
 			for size := 1; size <= 4; size++ {
 				for start := 0; start <= 2; start++ {
-					sp := spec{Sources: sources, Requests: []int{size, size, size, size, size, size, size, size, size, size, size, size}, Start: start}
+					sp := spec{Sources: sources, Requests: []int{size, size, size, size, size, size, size, size, size, size, size, size}, Start: start, Unit: []string{"", "ms", "ns"}[idx%3]}
 					c.R.Evaluations++
 					c.Guard("feed:", sp, func() { runCase(c, sp, r0) })
 					c.NontrivialEnumerated()
@@ -418,6 +426,7 @@ func remoteFeeds(c *ev.Ctx, caseNo *int) {
 func randomSpec(r *rand.Rand) spec {
 	k := r.Intn(6)
 	sp := spec{Sources: make([][]int, k), NilPage: make([]bool, k)}
+	sp.Unit = []string{"", "", "", "", "ms", "ns"}[r.Intn(6)]
 	mode := r.Intn(4)
 	for i := range sp.Sources {
 		n := r.Intn(13)
